@@ -21,11 +21,11 @@ func TestProp(t *testing.T) {
 		r.Inconclusive("reference self-test failed: " + err.Error())
 		return
 	}
-	r.SetRule("enumerated: checksum type {12,15,16,19,20,-138} x data length 0..200 x usage set x K seeded keys: GetChecksumHash compared with the reference and VerifyChecksum(correct)=true; " +
+	r.SetRule("enumerated: checksum type {12,15,16,19,20,-138} x data length 0..200 x usage set x K seeded keys (the last key of every type has the same bytes for all types of equal key length): GetChecksumHash compared with the reference and VerifyChecksum(correct)=true; " +
 		"for every 8th case negatives: every truncation, one-byte extensions, every single-bit flip of the checksum, other data, other key, other usage, empty and nil checksum must verify false; " +
 		"GetChksumEtype checked against the IANA registry for every id in -200..200. distinct = (type,len,usage,key[,negative]); all non-trivial")
 	r.Assume("reference checksums ref/kcrypto (RFC 3961 5.3/6.3, RFC 3962 7, RFC 8009 6, RFC 4757 4) self-tested against RFC vectors on every run")
-	nkeys := 1
+	nkeys := 2
 	if vh.Thorough() {
 		nkeys = 4
 	}
@@ -66,6 +66,9 @@ func TestProp(t *testing.T) {
 		u := units[i]
 		et := kcrypto.EtypeOfCksum[u.ct]
 		key := pcommon.RefKey(vh.NewRand("c07key", u.ct, u.ki), et)
+		if u.ki == nkeys-1 {
+			key = pcommon.SharedKey(et, 0) // the same bytes for every type of equal key length
+		}
 		for ui, usage := range pcommon.UsageSet {
 			one(r, u.ct, et, u.ki, key, u.n, usage, (u.n+ui)%8 == 0)
 		}
